@@ -22,7 +22,7 @@ from ..util import pmap, quiet, split
 
 NONE = 99999
 RTOL = 1e-12
-ACTIONS = ['SetValScalar', 'SetValArr', 'SetValIdx', 'SetVec', 'IAdd', 'ISub', 'IAddConst', 'IMul', 'IMulVec', 'AddScalVec',
+ACTIONS = ['SetValScalar', 'SetValArr', 'SetValIdx', 'SetVec', 'IAdd', 'ISub', 'IAddConst', 'IMul', 'OpIdx', 'IMulVec', 'AddScalVec',
            'SetName', 'SetVarIdx', 'ScaleToNorm', 'ScaleToPhys']
 # vector under test, second vector
 VECS = {'nl_out': ('_outputs', '_residuals'), 'nl_res': ('_residuals', '_outputs'),
@@ -116,6 +116,8 @@ def act(X, Y, names, L, a):
         X += fr(a['c'])
     elif n == 'imul':
         X *= fr(a['c'])
+    elif n == 'op_idx':
+        getattr(X, a['op'])(fr(a['c']), idxs=py_idx(a['idx']))
     elif n == 'imul_vec':
         X *= other()
     elif n == 'add_scal_vec':
@@ -266,7 +268,7 @@ def run(ctx):
         beh.extend(got)
     # vacuity guard: every action of the specification occurs in the histories that are bound to the implementation
     SPEC_OF = {'set_val': 'SetValScalar', 'set_val_arr': 'SetValArr', 'set_val_idx': 'SetValIdx', 'set_vec': 'SetVec', 'iadd': 'IAdd',
-               'isub': 'ISub', 'iadd_const': 'IAddConst', 'imul': 'IMul', 'imul_vec': 'IMulVec', 'add_scal_vec': 'AddScalVec',
+               'isub': 'ISub', 'iadd_const': 'IAddConst', 'imul': 'IMul', 'op_idx': 'OpIdx', 'imul_vec': 'IMulVec', 'add_scal_vec': 'AddScalVec',
                'set_name': 'SetName', 'set_var': 'SetVarIdx', 'scale_to_norm': 'ScaleToNorm', 'scale_to_phys': 'ScaleToPhys'}
     for b in beh:
         for e in b['h']:
